@@ -3,6 +3,7 @@ C05 - Revocation checking fails closed over the whole certificate chain.
 Property theorems only; the model is in `Model/C05.lean`.
 -/
 import NotationModel.Model.C05
+import NotationModel.Generated.SrcC05
 set_option linter.unusedSimpArgs false
 set_option linter.unusedVariables false
 
@@ -236,5 +237,91 @@ example : Holds { vec := [.unknown, .revoked], chainLen := 2, scheme := .x509, i
 example : (run { vec := [.ok], chainLen := 3, scheme := .x509, iface := .validator, action := .enforce,
                  validatorError := false, methods := [], serverErrors := [], errorWithResults := false, deprecatedCtor := false, identityPlugin := false }).outcome = .unknown := by
   decide
+
+/-! ### tie to the translated source -/
+
+namespace Tie
+open NotationModel.Src NotationModel.Src.revocationresult
+
+def toR : Result → R
+  | .ResultOK => .ok | .ResultNonRevokable => .nonRevokable | .ResultUnknown => .unknown | .ResultRevoked => .revoked
+def ofFinal : Final → Result
+  | .ok => .ResultOK | .unknown => .ResultUnknown | .revoked => .ResultRevoked
+def subj (chain : List x509.Certificate) : Option Nat → String
+  | none => ""
+  | some k => (chain[k]!).Subject.text
+
+abbrev GoState := Result × Int × String × Bool × String
+
+def absS (chain : List x509.Certificate) (acc : Acc) : GoState :=
+  (ofFinal acc.final, (acc.numOK : Int), subj chain acc.problematic, acc.revokedFound, subj chain acc.revokedIdx)
+
+/-- the model's loop, counting down -/
+theorem loopDown_scan (rs : List R) :
+    ∀ k, k ≤ rs.length →
+      GoLite.loopDown (fun k acc => loopStep acc k (rs[k]?.getD .ok)) k (scan (rs.drop k) k) = scan rs 0 := by
+  intro k
+  induction k with
+  | zero => intro _; simp [GoLite.loopDown]
+  | succ k ih =>
+    intro hk
+    have hk' : k < rs.length := by omega
+    rw [GoLite.loopDown]
+    have := ih (by omega)
+    rw [List.drop_eq_getElem_cons hk', scan] at this
+    simpa [hk'] using this
+
+theorem loopDown_scan_all (rs : List R) :
+    GoLite.loopDown (fun k acc => loopStep acc k (rs[k]?.getD .ok)) rs.length {} = scan rs 0 := by
+  have := loopDown_scan rs rs.length (Nat.le_refl _)
+  simpa [scan] using this
+
+/-- TIE (translated source): the Lean translation of `verifier.revocationFinalResult`, regenerated
+from verifier/verifier.go on every run (`Generated/SrcC05.lean`), computes for EVERY result vector
+and chain exactly what the hand-written model `revocationFinalFor` computes (the named subject is
+the subject of the certificate at the model's index). A change of the Go function that alters its
+result breaks this theorem, whatever inputs the correspondence run happens to sample. -/
+theorem source_revocationFinalResult_refines_model (crs : List CertRevocationResult) (chain : List x509.Certificate) :
+    verifier.revocationFinalResult crs chain =
+      ((ofFinal (revocationFinalFor chain.length (crs.map (fun c => toR c.Result))).1),
+       subj chain (revocationFinalFor chain.length (crs.map (fun c => toR c.Result))).2) := by
+  unfold verifier.revocationFinalResult
+  simp only [Id.run]
+  by_cases hlen : crs.length = chain.length
+  · have h1 : (GoLite.len crs != GoLite.len chain) = false := by simp [GoLite.len, hlen]
+    simp only [h1]
+    rw [GoLite.forIn_downTo_of_yields _ (by intro k s; (repeat' split) <;> exact ⟨_, rfl⟩)]
+    rw [GoLite.loopDown_sim _ (absS chain) (fun k acc => loopStep acc k (((crs.map (fun c => toR c.Result)))[k]?.getD .ok))
+          crs.length _ _ {} (by simp [absS, ofFinal, subj])]
+    · have hs := loopDown_scan_all (crs.map (fun c => toR c.Result))
+      simp only [List.length_map] at hs
+      rw [hs]
+      simp only [revocationFinalFor, aggregate, List.length_map, ← hlen]
+      generalize scan (List.map (fun c => toR c.Result) crs) 0 = acc
+      have hk' : (((acc.numOK : Nat) : Int) = ((crs.length : Nat) : Int)) = (acc.numOK = crs.length) := by
+        simp [Int.natCast_inj]
+      cases hr : acc.revokedFound <;> by_cases hk : acc.numOK = crs.length <;>
+        simp [absS, hr, hk, hk', ofFinal, GoLite.len] <;>
+        (try (repeat' split)) <;> first | rfl | (exfalso; omega)
+    · intro k hk acc
+      have e : (List.map (fun c => toR c.Result) crs)[k]?.getD R.ok = toR (GoLite.idx crs (k : Int)).Result := by
+        simp [GoLite.idx, hk]
+      rw [e]
+      simp only [GoLite.stepOf]
+      cases h : (GoLite.idx crs (k : Int)).Result <;>
+        simp [absS, loopStep, toR, R.good, R.toFinal, ofFinal, subj, GoLite.idx_natCast, pkix.Name.String, ForInStep.value, Id.run_pure]
+  · have h1 : (GoLite.len crs != GoLite.len chain) = true := by
+      simp only [GoLite.len, bne_iff_ne, ne_eq, Int.natCast_inj]; exact hlen
+    have h2 : (crs.length != chain.length) = true := by simp [hlen]
+    simp [h1, revocationFinalFor, h2, ofFinal, subj]
+    rfl
+
+/-- non-vacuity: the translated function on a concrete chain -/
+example : verifier.revocationFinalResult
+    [{ Result := .ResultUnknown, ServerResults := [], RevocationMethod := .RevocationMethodUnknown },
+     { Result := .ResultRevoked, ServerResults := [], RevocationMethod := .RevocationMethodCRL }]
+    [{ Subject := ⟨"leaf"⟩ }, { Subject := ⟨"root"⟩ }] = (.ResultRevoked, "root") := by decide
+
+end Tie
 
 end NotationModel.C05
